@@ -383,7 +383,7 @@ func TestC06Missing(t *testing.T) {
 		}
 		if msg != "" {
 			rec.Violation("missing", msg, c)
-			rt.Fatalf("%s", msg)
+			rt.Fatalf("property violated (details in the replay file)")
 		}
 	})
 }
